@@ -355,7 +355,7 @@ func ruleC01_3(c *Ctx, r *Rep) {
 	// (d) skips only for filtered subscriptions
 	nskip := 0
 	for _, ret := range returnsOf(del) {
-		if len(ret.Results) == 2 && isNilConst(ret.Results[0]) && isNilConst(ret.Results[1]) {
+		if len(ret.Results) == 2 && isNilConst(retResult(ret, 0)) && isNilConst(retResult(ret, 1)) {
 			nskip++
 			cs := edgeConds(ret.Block())
 			ok := condHas(cs, true, func(v ssa.Value) bool {
